@@ -389,4 +389,28 @@ PROPS = {
                        "and after the last timer nothing is left in the wheel (Runtime::current_timeout() is None)."),
         "level_note": "Hours of simulated time cost microseconds. Trusts the interposed clock (std::time::Instant follows it) and the slack constant.",
     },
+    "C20": {
+        "title": "Child processes: complete stdio and the real exit status",
+        "engine": "K",
+        "package": "check-k",
+        "bin": "check-k",
+        "design_ref": "§4, §7 C20, §13.7",
+        "technique": "deterministic simulation with a scripted external process: the real compio-process, runtime and drivers (io_uring on the simulated ring, or polling) against a real child process (`kchild`) that does nothing on its own: every action (write N bytes to stdout/stderr without blocking, read what is available on stdin, close a stream, exit with a code, die from a signal) is an environment action of the run, sent over an inherited control socket and acknowledged before the action returns, so the child's visible behaviour is part of the choice sequence; volumes up to 200 KB (beyond the pipe capacity, so the child stalls until the parent reads), generated read/write chunk sizes 1..100000, both directions active at once, wait() at a generated instant or wait_with_output(); waitpid() is interposed so that the blocking wait job of the virtual pool lets the environment go on; transcript and exit-status oracles; kernel faults as in the other Engine K checks; choice-sequence minimisation and replay; hangs reported through the watchdog with a from-seed replay",
+        "tiers": {
+            "quick": {"runs": 100_000, "time_limit_s": 60},
+            "thorough": {"runs": 30_000_000, "time_limit_s": 1500},
+        },
+        "rule": K_RULE,
+        "real": K_REAL + ["compio-process", "a real child process and real pipes; the child's actions are commanded and acknowledged one by one"],
+        "stub": K_STUB + ["the child's own pace: it only ever acts on command", "waitpid (interposed: while the inline wait job 'blocks', environment actions go on and time passes up to each)"],
+        "assumptions": K_ASSUME + [
+            "after the exit command the harness waits (waitid WNOWAIT) until the child is a zombie, so what the parent observes does not depend on how fast the OS tears the process down",
+            "the pidfd path of compio-process needs a nightly toolchain feature and is not built; wait goes through the blocking pool as on stable",
+            "the blocking wait job runs inline: while it waits, the parent's other tasks do not run, the environment does; when the simulator starts the job is its choice",
+            "stdin: what the child read must be a prefix of what the parent's writes reported as accepted (the child may end before reading everything)",
+        ],
+        "level_text": ("Seeded exploration of child-process programs: the bytes the parent reads from the child's stdout and stderr are exactly, and in order, what the child reports having written (also when the pipes fill and the child stalls); what the child reads from stdin is what the parent wrote; "
+                       "wait yields the commanded exit code or signal, once, and not before the child was told to end; on both drivers."),
+        "level_note": "kill(), process groups, environment and working directory plumbing are not exercised.",
+    },
 }
